@@ -540,6 +540,42 @@ def g_cleanup(mode):
                     fail(group="C13", server=st, violated="bystander connection was disturbed")
             bystander.close()
             del allres[:]
+    # a resource whose ONLY strong reference is an attribute of the connection's session instance (the natural way to write a per-session resource): the tracked set
+    # holds weak references, so the resource must still be closed when the connection ends - the session instance may be dropped only afterwards
+    class Owned(object):
+        closed = []
+
+        def __init__(self, name):
+            self.name = name
+
+        def close(self):
+            Owned.closed.append(self.name)
+
+    @api.expose
+    @api.behavior(instance_mode="session")
+    class OwningSession(object):
+        def __init__(self):
+            self.res = Owned("owned-by-session")
+            current_context.track_resource(self.res)
+
+        def ping(self):
+            return "pong"
+    for st in ("thread", "multiplex"):
+        RUNS[0] += 1
+        del Owned.closed[:]
+        with Running(st) as r:
+            r.daemon.register(OwningSession, "owning")
+            c = Raw(r.addr)
+            c.connect("owning")
+            c.invoke("owning", "ping", (), seq=1)
+            m = c.reply()
+            c.close()
+            time.sleep(0.3)
+            if m is None:
+                fail(group="C13", server=st, violated="setup: no reply")
+            elif Owned.closed != ["owned-by-session"]:
+                fail(group="C13", server=st, scenario="resource referenced only by the session instance",
+                     violated="the connection ended but the resource tracked on it was closed %d times (close calls: %r)" % (len(Owned.closed), Owned.closed))
     # listed known findings (the tracked-resource set is a WeakSet that is cleared after a snapshot walk): two distinct resources that compare equal share one
     # slot, so only one of them is closed; a resource tracked WHILE the connection is being closed (by another resource's close()) is forgotten unclosed
     class Handle(object):
@@ -1109,6 +1145,30 @@ def g_batch(mode):
                         pass
                 if o3.log == [1, "opaque", 2] and "C11-unserialisable-member-result" not in KNOWN:
                     KNOWN.append("C11-unserialisable-member-result")
+                # the results of a batch are serialised together after the last call: a result that is a live mutable object of the server shows the state
+                # AFTER the later calls of the batch, whereas one by one it is serialised at once
+                RUNS[0] += 1
+
+                @api.expose
+                class Live(Acc):
+                    def live(self):
+                        return self.log
+                l1, l2 = Live(), Live()
+                ul1, ul2 = r.daemon.register(l1), r.daemon.register(l2)
+                try:
+                    with client.Proxy(ul1) as p:
+                        seq_first = p.live()
+                        p.add(9)
+                    with client.Proxy(ul2) as p:
+                        b = client.BatchProxy(p)
+                        b.live()
+                        b.add(9)
+                        batch_first = list(b())[0]
+                    if seq_first == [] and batch_first == [9] and "C11-batch-results-serialised-after-the-last-call" not in KNOWN:
+                        KNOWN.append("C11-batch-results-serialised-after-the-last-call")
+                finally:
+                    r.daemon.unregister(l1)
+                    r.daemon.unregister(l2)
             finally:
                 for o in (o1, o2, o3):
                     r.daemon.unregister(o)
@@ -1667,6 +1727,37 @@ def g_gate(mode):
                     KNOWN.append("C02-nondata-descriptor-getter-runs")
             else:
                 fail(group="C02", name="secret_token", kind="call", violated="an unexposed cached_property was SERVED by a method call")
+        raw.close()
+        # listed known finding: the exposure mark lives on the function OBJECT, so an @expose'd class that merely re-uses a base class function under another name
+        # (alias = Base.secret) marks the shared function - and every other subclass of Base, which never exposed it, now serves and advertises `secret`
+        class SharedBase(object):
+            def secret(self):
+                LOG.append("SharedBase.secret")
+                return "secret"
+
+        @api.expose
+        class AliasUser(SharedBase):
+            alias = SharedBase.secret
+
+            def ping(self):
+                return "pong"
+
+        class Bystander(SharedBase):
+            @api.expose
+            def ping(self):
+                return "pong"
+
+        bys = Bystander()
+        r.daemon.register(bys, "bystander")
+        raw = Raw(r.addr)
+        raw.connect("bystander")
+        RUNS[0] += 1
+        del LOG[:]
+        raw.invoke("bystander", "secret", (), seq=8)
+        m = raw.reply()
+        if LOG == ["SharedBase.secret"] and m is not None and not (m.flags & P.FLAGS_EXCEPTION):
+            if "C02-alias-in-exposed-class-marks-shared-function" not in KNOWN:
+                KNOWN.append("C02-alias-in-exposed-class-marks-shared-function")
         raw.close()
         # listed known finding: a class-level __getattr__ hook of the target object runs for every unknown public name a method call names, before the refusal
         class Fallback(object):
